@@ -4,7 +4,8 @@
    Spec side: documented equivalent circuits in physical units (kV, Ohm, S, MVA), see doc/elements/*.rst.
    Ceq2 = component-wise equality of a pair of complex numbers (S_from, S_to). *)
 From Coq Require Import ZArith QArith List Bool.
-From PPV Require Import Base.QN Base.QC C31.Model C02.Model C02.Run C02.CPlain C02.CField C02.Proofs.
+From PPV Require Import Base.QN Base.QC C31.Model C02.Model C02.Run C02.CPlain C02.CField C02.Proofs
+                         C02.Model3w C02.Run3w C02.Star C02.Tap2 C02.Chain.
 (* C02.Run (run wrappers of the correspondence) is required here only so that building this file builds it *)
 Open Scope Q_scope.
 
@@ -189,3 +190,230 @@ Example C02_nonvacuous :
   stamps (line_branch 1 50 (355 # 113) (19 # 11) 20 20 l) C1 = Ok (stamps_core (line_branch 1 50 (355 # 113) (19 # 11) 20 20 l) C1).
 Proof. split; [vm_compute; discriminate | vm_compute; reflexivity]. Qed.
 Print Assumptions C02_nonvacuous.
+
+(* ================================================================ three-winding transformer: star equivalent
+   (_calculate_sc_voltages_of_equivalent_transformers, _trafo_df_from_trafo3w, _get_trafo3w_results)
+
+   The three equivalent 2W transformers, pushed through the unchanged 2W pipeline (trafo_rx), form a star whose
+   impedances reproduce the documented pairwise short-circuit data (doc/elements/trafo3w.rst): with
+   sc_pair v smin sn = v/100 * sn/smin (short-circuit voltage v percent relative to the smaller rating of the pair, on the
+   system base) and star_r / star_x the per-unit r / x of a block at nominal ratio,
+     r_h + r_m = sc_pair vkr_hv min(s_h, s_m),  r_m + r_l = sc_pair vkr_mv min(s_m, s_l),  r_h + r_l = sc_pair vkr_lv min(s_h, s_l)
+     x_pair >= 0 and r_pair^2 + x_pair^2 = (sc_pair vk_pair)^2 for the three pairs
+   (real and imaginary part separately; a single star x may be negative, its sign survives the sign(vki)*sqrt(.) coding
+   of vk_percent).  All square roots are oracle inputs constrained by their defining equations and signs
+   (t3_orc_ok, x_orc_ok; validated by the correspondence run through the residuals t3_resids / trafo_resid). *)
+Theorem C02_t3_star_pairwise : forall sn w o3 vk2 vkr2 oh om ol vh bh vm bm vl bl,
+  t3_vk w o3 = Ok (vk2, vkr2) -> t3_orc_ok w o3 ->
+  x_orc_ok sn (t3_trafo w vk2 vkr2 0) oh vh bh -> x_orc_ok sn (t3_trafo w vk2 vkr2 1) om vm bm ->
+  x_orc_ok sn (t3_trafo w vk2 vkr2 2) ol vl bl ->
+  0 < sn -> 0 < pick 0 (w_sn w) -> 0 < pick 1 (w_sn w) -> 0 < pick 2 (w_sn w) ->
+  ~ vh == 0 -> ~ bh == 0 -> ~ vm == 0 -> ~ bm == 0 -> ~ vl == 0 -> ~ bl == 0 ->
+  let '(s0, s1, s2) := w_sn w in
+  let '(vk_hm, vk_ml, vk_hl) := w_vk w in let '(vkr_hm, vkr_ml, vkr_hl) := w_vkr w in
+  let rh := star_r sn w vk2 vkr2 0 oh vh bh in let xh := star_x sn w vk2 vkr2 0 oh vh bh in
+  let rm := star_r sn w vk2 vkr2 1 om vm bm in let xm := star_x sn w vk2 vkr2 1 om vm bm in
+  let rl := star_r sn w vk2 vkr2 2 ol vl bl in let xl := star_x sn w vk2 vkr2 2 ol vl bl in
+  (rh + rm == sc_pair vkr_hm (qmin2 s0 s1) sn /\ rm + rl == sc_pair vkr_ml (qmin2 s1 s2) sn /\ rh + rl == sc_pair vkr_hl (qmin2 s0 s2) sn) /\
+  (0 <= xh + xm /\ (rh + rm) * (rh + rm) + (xh + xm) * (xh + xm) == sc_pair vk_hm (qmin2 s0 s1) sn * sc_pair vk_hm (qmin2 s0 s1) sn) /\
+  (0 <= xm + xl /\ (rm + rl) * (rm + rl) + (xm + xl) * (xm + xl) == sc_pair vk_ml (qmin2 s1 s2) sn * sc_pair vk_ml (qmin2 s1 s2) sn) /\
+  (0 <= xh + xl /\ (rh + rl) * (rh + rl) + (xh + xl) * (xh + xl) == sc_pair vk_hl (qmin2 s0 s2) sn * sc_pair vk_hl (qmin2 s0 s2) sn).
+Proof. exact t3_star_pairwise. Qed.
+Print Assumptions C02_t3_star_pairwise.
+
+(* one equivalent transformer whose vk_percent carries a sign (vk = sign(vki) sqrt(vki^2 + vkr^2)):
+   r + jx = (vkr + j vki)/100 * k with the documented factor k *)
+Theorem C02_trafo_rx_signed : forall sn t o vnl vnlbus vki K,
+  t_vk t == qsign vki * K -> 0 <= K -> K * K == vki * vki + t_vkr t * t_vkr t -> ~ t_vk t == 0 ->
+  o_x o * o_x o == fst (trafo_zr sn t vnl vnlbus) * fst (trafo_zr sn t vnl vnlbus)
+                   - snd (trafo_zr sn t vnl vnlbus) * snd (trafo_zr sn t vnl vnlbus) ->
+  0 <= o_x o -> 0 < sn -> 0 < t_sn t -> 0 < t_par t -> ~ vnl == 0 -> ~ vnlbus == 0 ->
+  let k := (vnl / vnlbus) * (vnl / vnlbus) * sn / t_sn t / t_par t in
+  fst (trafo_rx sn t o vnl vnlbus) == t_vkr t / 100 * k /\ snd (trafo_rx sn t o vnl vnlbus) == vki / 100 * k.
+Proof. exact trafo_rx_signed. Qed.
+Print Assumptions C02_trafo_rx_signed.
+
+(* loss side: pfe_kw / i0_percent sit on the equivalent transformer of the loss side only (none for "star"); every
+   other block has zero magnetising admittance *)
+Theorem C02_t3_loss_side : forall w vk2 vkr2 blk,
+  (t_pfe (t3_trafo w vk2 vkr2 blk), t_i0 (t3_trafo w vk2 vkr2 blk)) =
+  if Nat.eqb (w_loss w) blk then (w_pfe w, w_i0 w) else (0, 0).
+Proof. exact t3_loss_side. Qed.
+Print Assumptions C02_t3_loss_side.
+Theorem C02_t3_other_blocks_no_shunt : forall sn w vk2 vkr2 blk o vnl vnlbus,
+  w_loss w <> blk -> o_bm o * o_bm o == qmax (trafo_ym2 (t3_trafo w vk2 vkr2 blk)) 0 ->
+  fst (trafo_gb sn (t3_trafo w vk2 vkr2 blk) o vnl vnlbus) == 0 /\ snd (trafo_gb sn (t3_trafo w vk2 vkr2 blk) o vnl vnlbus) == 0.
+Proof. intros. apply t3_other_blocks_no_shunt; [assumption | eapply t3_other_blocks_bm_zero; eassumption]. Qed.
+Print Assumptions C02_t3_other_blocks_no_shunt.
+
+(* the result columns p/q_hv, p/q_mv, p/q_lv, pl/ql of res_trafo3w (stamps + pfsoln + _get_trafo3w_results on the three
+   rows) are the terminal powers of the star circuit star_S — block h from the hv terminal (ideal transformer at the
+   terminal) to the star point, blocks m / l from the star point (ideal transformers at the star side) to the mv / lv
+   terminals, each a pi two-port (row_I: series z, half shunts at both ends) — for all voltages and for pi- and T-model
+   rows alike; pl + j ql is their sum.  For a T-model block the currents row_I are those of the T circuit
+   (C02_t3_block_t_model). *)
+Theorem C02_t3_results_star : forall rh rm rl eh em el vh va vm vl sn,
+  row_sym_ok rh eh -> row_sym_ok rm em -> row_sym_ok rl el ->
+  let res := t3_results (flows (stamps_core rh eh) vh va sn) (flows (stamps_core rm em) va vm sn)
+                        (flows (stamps_core rl el) va vl sn) in
+  let '(Sh, Sm, Sl) := star_S sn rh rm rl eh em el vh va vm vl in
+  r3_hv res ==c Sh /\ r3_mv res ==c Sm /\ r3_lv res ==c Sl /\ r3_loss res ==c Cadd (Cadd Sh Sm) Sl.
+Proof. exact t3_results_star. Qed.
+Print Assumptions C02_t3_results_star.
+Theorem C02_t3_block_t_model : forall br e vf vt r x g b rr xr,
+  (b_r br, b_x br, b_g br, b_b br, b_ga br, b_ba br) = wye_delta_core r x g b rr xr ->
+  let za := wd_za r x rr xr in let zb := wd_zb r x rr xr in let yc := mkC g b in
+  ~ za ==c C0 -> ~ zb ==c C0 -> ~ yc ==c C0 -> ~ Cadd (Cadd za zb) (Cmul (Cmul za zb) yc) ==c C0 ->
+  Ceq2 (row_I br e vf vt) (t_circuit_I za zb yc (Cdiv vf (Cscale (b_tap br) e)) vt).
+Proof. exact row_I_t_model. Qed.
+Print Assumptions C02_t3_block_t_model.
+(* with Kirchhoff's current law at the star point (the auxiliary bus has no injection; the solution is an oracle input)
+   the reported losses are the sum of the losses of the three star branches; the loss of a series-only block is sn |i|^2 z *)
+Theorem C02_t3_losses_star : forall fh fm fl : C * C,
+  Cadd (Cadd (snd fh) (fst fm)) (fst fl) ==c C0 ->
+  r3_loss (t3_results fh fm fl) ==c Cadd (Cadd (pl (fst fh) (snd fh)) (pl (fst fm) (snd fm))) (pl (fst fl) (snd fl)).
+Proof. exact t3_losses_star. Qed.
+Print Assumptions C02_t3_losses_star.
+Theorem C02_blk_series_loss : forall z n vf vt sn, ~ z ==c C0 ->
+  let i := blk_I z C0 C0 n vf vt in
+  Cadd (Cscale sn (Cmul (Cdiv vf n) (Cconj (fst i)))) (Cscale sn (Cmul vt (Cconj (snd i))))
+  ==c Cscale (sn * cnorm2 (fst i)) z.
+Proof. exact blk_series_loss. Qed.
+Print Assumptions C02_blk_series_loss.
+
+(* ================================================================ second tap changer (tap2_* columns)
+   tap_second = pass "2" of the loop in _calc_tap_from_dataframe.  For well-formed tap changers of any kind on any side
+   the composition is the documented rule step_doc applied twice, the second time to the state left by the first:
+   a Ratio / Symmetrical step multiplies the rated-voltage phasor of its side by n_tap = 1 + steps e^{+-j phi}
+   (u' (ca + j sa) = u n_tap, shift' = shift + angle), an ideal phase shifter adds diff*tap_step_degree or the arcsin
+   angle, no tap side / unknown type leaves the state alone *)
+Theorem C02_tap2_composition : forall tc1 o1 ca1 sa1 tc2 o2 ca2 sa2 vnh vnl sh,
+  tap_wf tc1 -> tap_wf tc2 ->
+  exists vnh1 vnl1 sh1 vnh2 vnl2 sh2,
+    tap_notable tc1 o1 vnh vnl sh = Ok (vnh1, vnl1, Some sh1) /\
+    tap_second (tap_notable tc1 o1 vnh vnl sh) tc2 o2 = Ok (vnh2, vnl2, Some sh2) /\
+    (orc_ok tc1 o1 ca1 sa1 vnh vnl -> step_doc tc1 o1 ca1 sa1 (vnh, vnl, sh) (vnh1, vnl1, sh1)) /\
+    (orc_ok tc2 o2 ca2 sa2 vnh1 vnl1 -> step_doc tc2 o2 ca2 sa2 (vnh1, vnl1, sh1) (vnh2, vnl2, sh2)).
+Proof. exact tap2_composition. Qed.
+Print Assumptions C02_tap2_composition.
+(* two Ratio / Symmetrical changers on the hv side: vn_hv e^{j(a1+a2)} = vn_hv0 * n_tap1 * n_tap2 *)
+Theorem C02_tap2_same_side_product : forall tc1 o1 ca1 sa1 tc2 o2 ca2 sa2 vnh vnl sh,
+  tc_side tc1 = HV -> tc_side tc2 = HV ->
+  (tc_type tc1 = Ratio \/ tc_type tc1 = Symmetrical) -> (tc_type tc2 = Ratio \/ tc_type tc2 = Symmetrical) ->
+  orc_ok tc1 o1 ca1 sa1 vnh vnl -> orc_ok tc2 o2 ca2 sa2 (o_vn o1) vnl ->
+  tap_second (tap_notable tc1 o1 vnh vnl sh) tc2 o2 = Ok (o_vn o2, vnl, Some (qadd (qadd sh (o_atan o1)) (o_atan o2))) /\
+  Cscale (o_vn o2) (Cmul (mkC ca1 sa1) (mkC ca2 sa2))
+    ==c Cscale vnh (Cmul (tap_n tc1 (o_c o1) (o_s o1)) (tap_n tc2 (o_c o2) (o_s o2))).
+Proof. exact tap2_same_side_product. Qed.
+Print Assumptions C02_tap2_same_side_product.
+Theorem C02_tap2_errors_pass : forall e vnh vnl tc2 o2,
+  tap_second (Raise e) tc2 o2 = Raise e /\ tap_second (Ok (vnh, vnl, None)) tc2 o2 = Ok (vnh, vnl, None).
+Proof. intros. split; [apply tap2_first_raises | apply tap2_first_nan]. Qed.
+Print Assumptions C02_tap2_errors_pass.
+
+(* ---------------------------------------------------------------- non-vacuity of the new hypotheses *)
+(* 3W transformer 40/40/40 MVA, vk = 5 %, vkr = 3 % for all pairs: vki_delta = 4, star vkr = 3/2, vki = 2, vk = 5/2;
+   the sqrt oracle of each block on the system base 1 MVA at nominal ratio is 2/100/40 = 1/2000 *)
+Definition ex_w : trafo3w :=
+  {| w_vn := (110, 20, 10); w_sn := (40, 40, 40); w_vk := (5, 5, 5); w_vkr := (3, 3, 3); w_pfe := 30; w_i0 := 1 # 10;
+     w_shift := (0, 0); w_in := true; w_maxload := Some 100; w_loss := 0 |}.
+Definition ex_o3 : t3_orc := {| o_vki_d := (4, 4, 4); o_vk2 := (5 # 2, 5 # 2, 5 # 2) |}.
+Definition ex_ox : trafo_orc := {| o_x := 1 # 2000; o_bm := 0 |}.
+Example C02_t3_star_nonvacuous :
+  t3_vk ex_w ex_o3 = Ok ((5 # 2, 5 # 2, 5 # 2), (3 # 2, 3 # 2, 3 # 2)) /\ t3_orc_ok ex_w ex_o3 /\
+  x_orc_ok 1 (t3_trafo ex_w (5 # 2, 5 # 2, 5 # 2) (3 # 2, 3 # 2, 3 # 2) 0) ex_ox 110 110 /\
+  x_orc_ok 1 (t3_trafo ex_w (5 # 2, 5 # 2, 5 # 2) (3 # 2, 3 # 2, 3 # 2) 1) ex_ox 20 20 /\
+  x_orc_ok 1 (t3_trafo ex_w (5 # 2, 5 # 2, 5 # 2) (3 # 2, 3 # 2, 3 # 2) 2) ex_ox 10 10 /\
+  star_r 1 ex_w (5 # 2, 5 # 2, 5 # 2) (3 # 2, 3 # 2, 3 # 2) 0 ex_ox 110 110
+    + star_r 1 ex_w (5 # 2, 5 # 2, 5 # 2) (3 # 2, 3 # 2, 3 # 2) 1 ex_ox 20 20 == sc_pair 3 40 1.
+Proof.
+  split; [vm_compute; reflexivity|]. split; [vm_compute; repeat split; try discriminate|].
+  repeat split; vm_compute; try reflexivity; discriminate.
+Qed.
+Print Assumptions C02_t3_star_nonvacuous.
+Example C02_t3_results_nonvacuous :
+  let r := mkB (1 # 100) (1 # 10) 0 0 0 0 0 0 1 0 true 100 in
+  row_sym_ok r C1 /\ ~ r3_loss (t3_results (flows (stamps_core r C1) (mkC (21 # 20) 0) C1 1) (flows (stamps_core r C1) C1 (mkC (19 # 20) 0) 1)
+                                            (flows (stamps_core r C1) C1 (mkC (9 # 10) (-1 # 20)) 1)) ==c C0.
+Proof.
+  split; [repeat split; try reflexivity; vm_compute; discriminate | vm_compute; intros [H _]; discriminate H].
+Qed.
+Print Assumptions C02_t3_results_nonvacuous.
+(* two tap changers on the hv side: Symmetrical 90 degree, 3 steps of 25 % (n = 1 + 3/4 j, |n| = 5/4) then Ratio, -1 step of 2 % *)
+Definition ex_tc1 : tapc := {| tc_side := HV; tc_type := Symmetrical; tc_diff := Some 3; tc_pct := Some 25; tc_deg := Some 90 |}.
+Definition ex_tc2 : tapc := {| tc_side := HV; tc_type := Ratio; tc_diff := Some (-1); tc_pct := Some 2; tc_deg := Some 0 |}.
+Definition ex_to1 : tap_orc := {| o_c := 0; o_s := 1; o_vn := 125; o_atan := 18434949 # 500000; o_asin := 0 |}.
+Definition ex_to2 : tap_orc := {| o_c := 1; o_s := 0; o_vn := 245 # 2; o_atan := 0; o_asin := 0 |}.
+Example C02_tap2_nonvacuous :
+  tap_wf ex_tc1 /\ tap_wf ex_tc2 /\ orc_ok ex_tc1 ex_to1 (4 # 5) (3 # 5) 100 20 /\ orc_ok ex_tc2 ex_to2 1 0 125 20 /\
+  tap_second (tap_notable ex_tc1 ex_to1 100 20 0) ex_tc2 ex_to2 = Ok (245 # 2, 20, Some (18434949 # 500000)).
+Proof.
+  split; [exact I|]. split; [exact I|].
+  split; [vm_compute; repeat split; try reflexivity; discriminate|].
+  split; [vm_compute; repeat split; try reflexivity; discriminate|]. vm_compute. reflexivity.
+Qed.
+Print Assumptions C02_tap2_nonvacuous.
+
+(* the rows of the transformer pipeline meet the structural part of row_sym_ok by construction *)
+Theorem C02_trafo_branch_shape : forall sn tm t o vnh vnl shift bh bl row,
+  trafo_branch sn tm t o vnh vnl shift bh bl = Ok row ->
+  b_ra row = 0 /\ b_xa row = 0 /\ b_stat row = t_in t /\ b_tap row = nominal_ratio vnh vnl bh bl /\ b_shift row = shift.
+Proof. exact trafo_branch_shape. Qed.
+Print Assumptions C02_trafo_branch_shape.
+
+(* trafo3w tap changer at the star point (tap_step_degree 0 / NaN): the corrected step put on the other side of the block is
+   the reciprocal of the documented n_tap — the rated voltage of the star side of the block is divided by n_tap *)
+Theorem C02_star_tap_reciprocal : forall x blk p d c' s' g,
+  x_side x = blk -> x_star x = true -> x_pct x = Some p ->
+  (exists a n, x_pos x = Some a /\ x_neutral x = Some n /\ d == a - n) -> ~ 100 + p * d == 0 ->
+  tc_deg (tap3_block x blk) = Some g ->
+  (g == 0 -> c' == 1 /\ s' == 0) -> (g == -180 -> c' == -1 /\ s' == 0) ->
+  tc_side (tap3_block x blk) = match blk with O => LV | _ => HV end /\
+  tap_n (tap3_block x blk) c' s' ==c mkC (1 / (1 + p * d / 100)) 0.
+Proof. exact star_tap_reciprocal. Qed.
+Print Assumptions C02_star_tap_reciprocal.
+Example C02_star_tap_nonvacuous :
+  let x := {| x_side := 0; x_star := true; x_type := Ratio; x_pos := Some 2; x_neutral := Some 0; x_pct := Some (3 # 2); x_deg := None |} in
+  tc_deg (tap3_block x 0) = Some (-180 # 1) /\ tap_n (tap3_block x 0) (-1) 0 ==c mkC (100 # 103) 0.
+Proof. split; [vm_compute; reflexivity | vm_compute; split; reflexivity]. Qed.
+Print Assumptions C02_star_tap_nonvacuous.
+Theorem C02_t3_row_shape : forall sn tm cva w x o3 blk tpo o bh bl row,
+  t3_row sn tm cva w x o3 blk tpo o bh bl = Ok row ->
+  b_ra row = 0 /\ b_xa row = 0 /\ b_stat row = w_in w.
+Proof. exact t3_row_shape. Qed.
+Print Assumptions C02_t3_row_shape.
+
+(* ================================================================ two-winding transformer, trafo_model "pi": ONE composed statement
+   element parameters -> branch row (_calc_branch_values_from_trafo_df) -> makeYbus stamps -> pfsoln flows = the documented
+   circuit in physical units: ideal transformer vn_hv : vn_lv (tap-adjusted) with the phase shift e at the hv side, then on
+   the lv side Z_k (Re = vkr/100 vn_lv^2/(sn par), |.| = vk/100 vn_lv^2/(sn par), Im >= 0) and Y_m (Re = pfe/1000 par/vn_lv^2,
+   |.| = i0/100 sn par/vn_lv^2, Im <= 0) half at each end; bus voltages bh*vf, bl*vt in kV, powers in MVA; the system base
+   sn_mva and the bus base voltages cancel *)
+Theorem C02_trafo_pi_chain : forall sn t o vnh vnl shift bh bl row e vf vt,
+  trafo_branch sn false t o vnh vnl shift bh bl = Ok row -> t_in t = true ->
+  0 <= o_x o ->
+  o_x o * o_x o == fst (trafo_zr sn t vnl bl) * fst (trafo_zr sn t vnl bl) - snd (trafo_zr sn t vnl bl) * snd (trafo_zr sn t vnl bl) ->
+  0 <= o_bm o -> o_bm o * o_bm o == trafo_ym2 t ->
+  0 < t_vk t -> 0 < t_sn t -> 0 < t_par t -> 0 < sn -> 0 < vnl -> 0 < vnh -> 0 < bl -> 0 < bh -> ~ t_vnl0 t == 0 ->
+  re e * re e + im e * im e == 1 ->
+  exists Zk Ym : C,
+    (re Zk == t_vkr t / 100 * (vnl * vnl) / (t_sn t * t_par t) /\ 0 <= im Zk /\
+     re Zk * re Zk + im Zk * im Zk == (t_vk t / 100 * (vnl * vnl) / (t_sn t * t_par t)) * (t_vk t / 100 * (vnl * vnl) / (t_sn t * t_par t))) /\
+    (re Ym == t_pfe t / 1000 * t_par t / (vnl * vnl) /\ im Ym <= 0 /\
+     re Ym * re Ym + im Ym * im Ym == (t_i0 t / 100 * t_sn t * t_par t / (vnl * vnl)) * (t_i0 t / 100 * t_sn t * t_par t / (vnl * vnl))) /\
+    Ceq2 (flows (stamps_core row e) vf vt sn)
+         (pi_flows_phys2 Zk Zk (Cscale (1 # 2) Ym) (Cscale (1 # 2) Ym)
+                         (Cdiv (Cscale (bh * (vnl / vnh)) vf) e) (Cscale bl vt)).
+Proof. exact trafo_pi_chain. Qed.
+Print Assumptions C02_trafo_pi_chain.
+(* non-vacuity: 40 MVA 110/20 kV, vk 5 %, vkr 3 %, pfe 120 kW, i0 0.5 %: sqrt values 4/4000 and 4/25 are rational *)
+Definition ex_t : trafo :=
+  {| t_vnh0 := 110; t_vnl0 := 20; t_sn := 40; t_vk := 5; t_vkr := 3; t_pfe := 120; t_i0 := 1 # 2; t_par := 1; t_df := 1;
+     t_in := true; t_maxload := Some 100; t_rr := 1 # 2; t_xr := 1 # 2 |}.
+Definition ex_to : trafo_orc := {| o_x := 1 # 1000; o_bm := 4 # 25 |}.
+Example C02_trafo_pi_chain_nonvacuous :
+  (exists row, trafo_branch 1 false ex_t ex_to 110 20 0 110 20 = Ok row) /\
+  o_x ex_to * o_x ex_to == fst (trafo_zr 1 ex_t 20 20) * fst (trafo_zr 1 ex_t 20 20) - snd (trafo_zr 1 ex_t 20 20) * snd (trafo_zr 1 ex_t 20 20) /\
+  o_bm ex_to * o_bm ex_to == trafo_ym2 ex_t.
+Proof. split; [eexists; vm_compute; reflexivity | split; vm_compute; reflexivity]. Qed.
+Print Assumptions C02_trafo_pi_chain_nonvacuous.
